@@ -246,7 +246,8 @@ type side struct {
 	tr     *transcript
 	flate  bool // negotiated
 	state  ws.State
-	own    []byte // a write buffer the session owns and reuses
+	own    []byte               // a write buffer the session owns and reuses
+	cw     *wsutil.CipherWriter // the session's CipherWriter, re-armed with Reset for every frame it sends that way
 	kept   []keptBuf
 }
 
@@ -857,7 +858,19 @@ func (s *side) send(i int, ex exchange) bool {
 		copy(own, p)
 		h := ws.Header{Fin: true, OpCode: opOf(ex), Masked: true, Mask: ws.NewMask(), Length: int64(len(own))}
 		if err = ws.WriteHeader(s.conn, h); err == nil {
-			_, err = wsutil.NewCipherWriter(s.conn, h.Mask).Write(own)
+			if s.cw == nil {
+				s.cw = wsutil.NewCipherWriter(s.conn, h.Mask)
+			} else {
+				s.cw.Reset(s.conn, h.Mask)
+			}
+			// (In two pieces when there is enough of it.)
+			if k := len(own) / 3; k > 0 {
+				if _, err = s.cw.Write(own[:k]); err == nil {
+					_, err = s.cw.Write(own[k:])
+				}
+			} else {
+				_, err = s.cw.Write(own)
+			}
 		}
 		if sum(own) != keep {
 			s.tr.add("step %d: the caller's payload was modified by the write", i)
